@@ -461,7 +461,8 @@ def apply_event(run: Run, ev, check=True):
             raise ValueError(f"unknown event {ev}")
     except UnsatError:
         ans = ("UNSAT",)
-        if check and uni.models(run.ref) and kind not in ("add",):
+        xl = ev[2] if kind in ("istrue", "isfalse") else "none"  # UnsatError is fine when constraints + extras have no model
+        if check and uni.models(run.ref, xl) and kind not in ("add",):
             bad("unsat-but-sat")
     except ClaripyError as e:
         from claripy.errors import BackendError, ClaripyFrontendError
